@@ -40,6 +40,11 @@ Record settings := {
   p_mod : nat;     (* mod_name *)
   (* the type parameter LexerTypesT / StorageT of both builders *)
   p_st : nat;
+  (* what the cache string records about the type parameter.  The code as it is
+     records nothing: the correspondence run passes the constant 0 here.  (A
+     builder that wrote the type name into the cache string is the same mirror
+     run with p_stc = p_st.) *)
+  p_stc : nat;
   (* CTLexerBuilder *)
   l_vis : nat;     (* visibility *)
   l_ed : nat;      (* rust_edition: stored (ctbuilder.rs:443) but never read by build *)
@@ -52,19 +57,19 @@ Record settings := {
    (one lrpar build, one grammar path).  Everything else that is written: *)
 Record cache := {
   c_ser : nat; c_mod : nat; c_rec : nat; c_yk : nat; c_eoc : bool; c_sw : bool;
-  c_wae : bool; c_ed : nat; c_toks : nat; c_vis : nat
+  c_wae : bool; c_ed : nat; c_toks : nat; c_vis : nat; c_stc : nat
 }.
 
 Definition cache_of (c : settings) (toks : nat) : cache :=
   {| c_ser := p_ser c; c_mod := p_mod c; c_rec := p_rec c; c_yk := p_yk c;
      c_eoc := p_eoc c; c_sw := p_sw c; c_wae := p_wae c; c_ed := p_ed c;
-     c_toks := toks; c_vis := p_vis c |}.
+     c_toks := toks; c_vis := p_vis c; c_stc := p_stc c |}.
 
 Definition cache_eqb (a b : cache) : bool :=
   (c_ser a =? c_ser b) && (c_mod a =? c_mod b) && (c_rec a =? c_rec b) &&
   (c_yk a =? c_yk b) && Bool.eqb (c_eoc a) (c_eoc b) && Bool.eqb (c_sw a) (c_sw b) &&
   Bool.eqb (c_wae a) (c_wae b) && (c_ed a =? c_ed b) && (c_toks a =? c_toks b) &&
-  (c_vis a =? c_vis b).
+  (c_vis a =? c_vis b) && (c_stc a =? c_stc b).
 
 (* ---- generated files --------------------------------------------------- *)
 (* <grammar>.y.rs: code generated from the grammar text under yacckind,
